@@ -244,3 +244,73 @@ Proof.
   split; [exact Proofs.KdeQR.Q2R_epan_pdf|]. split; [exact Proofs.KdeQR.Q2R_epan_cdf|].
   split; [exact Proofs.KdeQR.Q2R_wavg|]. split; [exact Proofs.KdeQR.Q2R_fold_pdf | exact Proofs.KdeQR.Q2R_fold_cdf].
 Qed.
+
+(* the four capstones in one statement *)
+Lemma model_is_a_distribution : forall k : kde, kde_ok k -> k_kernel k = KEpan ->
+  (k_b k = BNone ->
+   exists fR FR : R -> R,
+     Proofs.KdeQR.proper_pair fR FR /\ (forall x : R, 0 <= FR x <= 1) /\
+     (forall lo hi : Q, pairs_within lo hi (kde_ps k) ->
+        (forall x : R, x <= Q2R lo - Q2R (k_h k) -> FR x = 0) /\
+        (forall x : R, Q2R hi + Q2R (k_h k) <= x -> FR x = 1) /\
+        RInt fR (Q2R lo - Q2R (k_h k)) (Q2R hi + Q2R (k_h k)) = 1) /\
+     forall x : Q, exists p c : Q,
+       kde_pdf k x = Some (XFin p) /\ kde_cdf k x = Some (XFin c) /\
+       Q2R p = fR (Q2R x) /\ Q2R c = FR (Q2R x)) /\
+  (forall m : Q, k_b k = BLower m ->
+   exists fR FR : R -> R,
+     Proofs.KdeQR.proper_pair fR FR /\ FR (Q2R m) = 0 /\
+     (forall lo hi : Q, pairs_within lo hi (kde_ps k) -> (m <= lo)%Q ->
+        (forall x : R, Q2R hi + Q2R (k_h k) <= x -> FR x = 1) /\
+        RInt fR (Q2R m) (Q2R hi + Q2R (k_h k)) = 1) /\
+     forall x : Q,
+       ((x < m)%Q -> kde_pdf k x = Some (XFin 0%Q) /\ kde_cdf k x = Some (XFin 0%Q)) /\
+       ((m <= x)%Q -> exists p c : Q,
+          kde_pdf k x = Some (XFin p) /\ kde_cdf k x = Some (XFin c) /\
+          Q2R p = fR (Q2R x) /\ Q2R c = FR (Q2R x))) /\
+  (forall M : Q, k_b k = BUpper M ->
+   exists fR FR : R -> R,
+     Proofs.KdeQR.proper_pair fR FR /\ FR (Q2R M) = 1 /\
+     (forall lo hi : Q, pairs_within lo hi (kde_ps k) -> (hi <= M)%Q ->
+        (forall x : R, x <= Q2R lo - Q2R (k_h k) -> FR x = 0) /\
+        RInt fR (Q2R lo - Q2R (k_h k)) (Q2R M) = 1) /\
+     forall x : Q,
+       ((M <= x)%Q -> kde_pdf k x = Some (XFin 0%Q) /\ kde_cdf k x = Some (XFin 1%Q)) /\
+       ((x < M)%Q -> exists p c : Q,
+          kde_pdf k x = Some (XFin p) /\ kde_cdf k x = Some (XFin c) /\
+          Q2R p = fR (Q2R x) /\ Q2R c = FR (Q2R x))) /\
+  (forall m M : Q, k_b k = BBoth m M -> pairs_within m M (kde_ps k) -> (m < M)%Q ->
+   exists fR FR : R -> R,
+     Proofs.KdeQR.proper_pair fR FR /\ FR (Q2R m) = 0 /\ FR (Q2R M) = 1 /\
+     (forall x : R, Q2R m <= x <= Q2R M -> 0 <= FR x <= 1) /\
+     RInt fR (Q2R m) (Q2R M) = 1 /\
+     forall x : Q,
+       ((x < m)%Q -> kde_pdf k x = Some (XFin 0%Q) /\ kde_cdf k x = Some (XFin 0%Q)) /\
+       ((M <= x)%Q -> kde_pdf k x = Some (XFin 0%Q) /\ kde_cdf k x = Some (XFin 1%Q)) /\
+       ((m <= x)%Q -> (x < M)%Q -> exists p c : Q,
+          kde_pdf k x = Some (XFin p) /\ kde_cdf k x = Some (XFin c) /\
+          Q2R p = fR (Q2R x) /\ Q2R c = FR (Q2R x))).
+Proof.
+  intros k ok kern.
+  split; [apply (model_proper_unbounded k ok kern)|].
+  split; [apply (model_proper_lower k ok kern)|].
+  split; [apply (model_proper_upper k ok kern) | apply (model_proper_both k ok kern)].
+Qed.
+
+(* bridge facts in one statement *)
+Lemma Q2R_bridge_and_rules :
+  ((forall h x : Q, (0 < h)%Q -> Q2R (epan_pdf h x) = RealSpec.KdeR.epan_pdf (Q2R h) (Q2R x)) /\
+   (forall h x : Q, (0 < h)%Q -> Q2R (epan_cdf h x) = RealSpec.KdeR.epan_cdf (Q2R h) (Q2R x)) /\
+   (forall (g : Q -> Q) (gR : R -> R) (ps : list (Q * Q)) (x : Q),
+      (forall q : Q, Q2R (g q) = gR (Q2R q)) -> pairs_ok ps ->
+      Q2R (wavg g ps x) = RealSpec.KdeR.kde_mix gR (Proofs.KdeQR.sampleR ps) (Q2R x)) /\
+   (forall (f : Q -> Q) (fR : R -> R) (m M : Q) (N : nat) (x : Q),
+      (forall q : Q, Q2R (f q) = fR (Q2R q)) ->
+      Q2R (fold_pdf f m M N x) = RealSpec.KdeR.img_pdf fR (Q2R m) (Q2R M) N (Q2R x)) /\
+   (forall (F : Q -> Q) (FR : R -> R) (m M : Q) (N : nat) (x : Q),
+      (forall q : Q, Q2R (F q) = FR (Q2R q)) ->
+      Q2R (fold_cdf F m M N x) = RealSpec.KdeR.img_cdf FR (Q2R m) (Q2R M) N (Q2R x))) /\
+  ((forall (s : R) (s2 n : Q), (0 < n)%Q -> Q2R s2 = s * s ->
+      Q2R (bw10 s2 n) = (106 / 100 * s * Rpower (Q2R n) (- (1 / 5))) ^ 10) /\
+   (forall a b : R, 0 <= a -> 0 <= b -> Rmin a b * Rmin a b = Rmin (a * a) (b * b))).
+Proof. split; [exact Q2R_bridge | exact R_bandwidth_formula]. Qed.
